@@ -334,10 +334,11 @@ def gen(tier, rng):
             for body in ("", "0", "12", "-12", " 0x1f", "zz"):
                 out.append(f"{name} {b} {enc(codes(body))}")
     # detail::strto_integer<T> directly: the error member, and the instantiations without a wrapper
-    for ty in ("i", "u", "l", "ul", "ll", "ull"):
+    for ty in ("i", "u", "l", "ul", "ll", "ull", "c", "sc", "uc", "s", "us"):
+        narrow = TYPES[ty][0] < 32
         for b in ([0, 10, 16] if quick else [0] + str_bases):
             for cs in strto_inputs(ty, b):
-                if quick and rng.random() < .5:
+                if quick and rng.random() < (.8 if narrow else .5):
                     continue
                 out.append(f"strto_integer {ty} {b} {enc(cs)}")
         for b in bad_bases:
